@@ -332,12 +332,160 @@ def run_corpus(shard):
     return acc
 
 
+# aromatic texts as a person writes them (bond between two aromatic rings left implicit; hypervalent hetero atoms that the library repairs by rule)
+# paired with a hand-written Kekule text in the SAME atom order: the Kekule text is read without any aromatic machinery and supplies hydrogens / net charge
+AS_WRITTEN = [
+    ('c1ccccc1c1ccccc1', 'C1=CC=CC=C1C1=CC=CC=C1'),
+    ('c1ccccc1c1ccncc1', 'C1=CC=CC=C1C1=CC=NC=C1'),
+    ('c1ccc(cc1)c1ccc(cc1)c1ccccc1', 'C1=CC=C(C=C1)C1=CC=C(C=C1)C1=CC=CC=C1'),
+    ('c1ccc2c(c1)Cc1ccccc12', 'C1=CC=C2C(=C1)CC1=CC=CC=C12'),
+    ('c1ccsc1c1cccs1', 'C=1C=CSC=1C1=CC=CS1'),
+    ('c1ccccc1n1cccc1', 'C1=CC=CC=C1N1C=CC=C1'),
+    ('Cc1ccccc1c1ccccc1O', 'CC1=CC=CC=C1C1=CC=CC=C1O'),
+    ('c1ccccc1c1ccccc1c1ccccc1', 'C1=CC=CC=C1C1=CC=CC=C1C1=CC=CC=C1'),
+    ('[nH]1cccc1c1ccccn1', 'N1C=CC=C1C1=CC=CC=N1'),
+    ('c1ccccc1-c1ccccc1', 'C1=CC=CC=C1-C1=CC=CC=C1'),
+    ('O=n1ccccc1', '[O-][N+]1=CC=CC=C1'),
+    ('c1ccn(=O)cc1', 'C1=CC=[N+]([O-])C=C1'),
+    ('c1cn(=O)ccn1=O', 'C1=C[N+]([O-])=CC=[N+]1[O-]'),
+    ('O=n1ccn(=O)cc1', '[O-][N+]1=CC=[N+]([O-])C=C1'),
+    ('[O-][s+]1cccc1', '[O-][S+]1C=CC=C1'),
+    ('c1cc[s+]([O-])c1c1ccccn1=O', 'C=1C=C[S+]([O-])C=1C1=CC=CC=[N+]1[O-]'),
+    ('O=n1ccccc1c1ccc[s+]1[O-]', '[O-][N+]1=CC=CC=C1C1=CC=C[S+]1[O-]'),
+    ('c1cn(=O)c2ccccc2n1=O', 'C1=C[N+]([O-])=C2C=CC=CC2=[N+]1[O-]'),
+    ('c1cn(=O)ccc1c1ccn(=O)cc1', 'C1=C[N+]([O-])=CC=C1C1=CC=[N+]([O-])C=C1'),
+    ('[O-][s+]1cccc1c1ccc[s+]1[O-]', '[O-][S+]1C=CC=C1C1=CC=C[S+]1[O-]'),
+]
+FIRST_OPS = ('kekule', 'enumerate_kekule', 'copy+kekule', 'enumerate_kekule, then kekule on the same object')
+
+
+def _mapped(m, inv):
+    return (tuple(sorted((inv[n], a.atomic_symbol, a.charge, a.is_radical, a.implicit_hydrogens) for n, a in m.atoms())),
+            tuple(sorted((min(inv[x], inv[y]), max(inv[x], inv[y]), b.order) for x, y, b in m.bonds())))
+
+
+def first_conversion(acc, text, ktext, perm, op, bad):
+    """fresh parse of `text`, renumbered by perm (None = as parsed), `op` is the first conversion the object sees.
+    returns the aromatic form mapped back to text order (or None)"""
+    from itertools import islice
+    from chython import smiles
+    ref = smiles(ktext)
+    m = smiles(text)
+    nums = list(m)
+    if [a.atomic_symbol for _, a in ref.atoms()] != [a.atomic_symbol for _, a in m.atoms()] or \
+            sorted((min(x, y), max(x, y)) for x, y, _ in ref.bonds()) != sorted((min(x, y), max(x, y)) for x, y, _ in m.bonds()):
+        raise RuntimeError('harness: Kekule text %r is not in the atom order of %r' % (ktext, text))
+    ref_h = {n: a.implicit_hydrogens for n, a in ref.atoms()}
+    ref_q = sum(a.charge for _, a in ref.atoms())
+    if perm is not None:
+        m.remap(perm)
+        inv = {v: k for k, v in perm.items()}
+    else:
+        inv = {n: n for n in nums}
+
+    def judge(k, what):
+        if any(b.order not in (1, 2, 3, 8) for *_, b in k.bonds()):
+            bad('%s: result keeps a non-localised bond' % what)
+            return False
+        if k.check_valence() or any(a.implicit_hydrogens is None for _, a in k.atoms()):
+            bad('%s: result has a valence error' % what)
+            return False
+        if {inv[n]: a.implicit_hydrogens for n, a in k.atoms()} != ref_h:
+            bad('%s: per-atom hydrogens differ from the Kekule text of the same molecule' % what)
+            return False
+        if sum(a.charge for _, a in k.atoms()) != ref_q:
+            bad('%s: net charge changed' % what)
+            return False
+        if sorted((min(inv[x], inv[y]), max(inv[x], inv[y])) for x, y, _ in k.bonds()) != sorted((min(x, y), max(x, y)) for x, y, _ in ref.bonds()):
+            bad('%s: connectivity changed' % what)
+            return False
+        return True
+
+    acc.transitions += 1
+    try:
+        if op == 'kekule':
+            m.kekule()
+            ks = [m]
+        elif op == 'copy+kekule':
+            m = m.copy()
+            m.kekule()
+            ks = [m]
+        elif op == 'enumerate_kekule':
+            ks = list(islice(m.enumerate_kekule(), 64))
+        else:
+            g = m.enumerate_kekule()
+            first = next(g, None)
+            m.kekule()   # the object itself is converted while the generator is suspended
+            ks = ([first] if first is not None else []) + list(islice(g, 63)) + [m]
+    except Exception as e:
+        bad('%s as the first conversion raised %s' % (op, type(e).__name__))
+        return None
+    if not ks:
+        bad('%s yields no form' % op)
+        return None
+    out = None
+    for k in ks:
+        if not judge(k, op):
+            return None
+        t = k.copy()
+        acc.transitions += 1
+        t.thiele(fix_tautomers=False)
+        sig = _mapped(t, inv)
+        if out is None:
+            out = sig
+        elif sig != out:
+            bad('%s: forms of one molecule aromatise to different aromatic forms' % op)
+            return None
+    return out, (len(ks) if op == 'enumerate_kekule' else None)
+
+
+def run_as_written(shard):
+    k, nsh, tier = shard
+    acc = Acc()
+    from chython import smiles
+    jobs = [(i, op) for i in range(len(AS_WRITTEN)) for op in FIRST_OPS]
+    for j, (i, op) in enumerate(jobs):
+        if j % nsh != k:
+            continue
+        text, ktext = AS_WRITTEN[i]
+        nums = list(smiles(text))
+        perms = [None] + graphs.gen_perms(nums)[1:]
+        base = nforms = None
+        for p in perms:
+            acc.states += 1
+
+            def bad(what, **d):
+                acc.fail('%s :: %s' % (what, text), mol=text, ktext=ktext, op=op, perm=None if p is None else [p[x] for x in nums], as_written=True, **d)
+                acc.outcomes['FAIL ' + what] += 1
+            r = first_conversion(acc, text, ktext, p, op, bad)
+            if r is None:
+                break
+            sig, n = r
+            if base is None:
+                base, nforms = sig, n
+                # every first conversion must end in the aromatic form that plain kekule() gives
+                r0 = first_conversion(acc, text, ktext, None, 'kekule', bad)
+                if r0 is not None and r0[0] != sig:
+                    bad('%s as first conversion gives another aromatic form than kekule()' % op)
+                    break
+            elif sig != base:
+                bad('aromatic form depends on atom numbering (aromatic text as written)')
+                break
+            elif n != nforms and n is not None and n < 64 and nforms < 64:
+                bad('number of enumerated Kekule forms depends on atom numbering')
+                break
+        acc.outcomes['%s ok' % op] += 1
+    return acc
+
+
 def plan(tier, seed):
     return [Stage('generic ring systems x GEN + aromatic text', run_generic, [(k, 64, tier) for k in range(64)],
                   'mono/bicyclic 5,6,5-6,6-6,5-5 skeletons x <=%d hetero positions (N, N-Me, O, S) x every double-bond matching x GEN subset; aromatic SMILES text from both writers (every RDKit root) read back and kekulised' % (2 if tier == 'quick' else 3)),
             Stage('ring-system family x GEN', run_family, [(k, 64, tier) for k in range(64)],
                   'six/five-membered and fused Kekule ring systems with <=%d hetero/substituent deviations, charged rings, quinoid and special cases x %s renumberings' % (1 if tier == 'quick' else 2, '10 GEN' if tier == 'quick' else 'all GEN')),
-            Stage('corpus (Kekule form) x GEN subset', run_corpus, [(k, 64, tier) for k in range(64)], 'lipophilicity.csv stride %d' % (4 if tier == 'quick' else 1))]
+            Stage('corpus (Kekule form) x GEN subset', run_corpus, [(k, 64, tier) for k in range(64)], 'lipophilicity.csv stride %d' % (4 if tier == 'quick' else 1)),
+            Stage('aromatic text as written x first conversion x GEN', run_as_written, [(k, 16, tier) for k in range(16)],
+                  '%d hand-written aromatic texts (implicit bond between aromatic rings; one or two rule-repaired hetero atoms) each paired with a Kekule text in the same atom order x %d first conversions on the freshly parsed object x every GEN renumbering' % (len(AS_WRITTEN), len(FIRST_OPS)))]
 
 
 def _numbering_dep(spec, rec):
@@ -360,6 +508,22 @@ def replay(rec):
     from chython import smiles
     acc = Acc()
     s = rec['mol']
+    if rec.get('as_written'):
+        nums = list(smiles(s))
+
+        def bad(what, **d):
+            acc.fail('%s :: %s' % (what, s))
+        p = dict(zip(nums, rec['perm'])) if rec.get('perm') else None
+        r = first_conversion(acc, s, rec['ktext'], p, rec['op'], bad)
+        r0 = first_conversion(acc, s, rec['ktext'], None, 'kekule', bad)
+        if r is not None and r0 is not None:
+            if r[0] != r0[0]:
+                acc.fail(rec['key'])
+            else:
+                ri = first_conversion(acc, s, rec['ktext'], None, rec['op'], bad)
+                if ri is not None and ri[1] != r[1]:
+                    acc.fail(rec['key'])
+        return [f for f in acc.fails if f['key'] == rec['key']]
     if ' dbl=' in s:
         for tag, spec in aromatics.generic(3, ('5', '6', '7', '5-6', '6-6', '5-5')):
             if tag == s:
